@@ -98,7 +98,7 @@ def tokeniser(chk, cc):
             cases.append((''.join(w), 'exhaustive'))
     if not chk.thorough:
         cases = [c for i, c in enumerate(cases) if len(c[0]) <= 3 or i % 5 == chk.seed % 5]
-    for _ in range(chk.n(12000, 200000)):
+    for _ in range(chk.n(12000, 800000)):
         cases.append((gen_string(rng, cc, chk.n(8, 14)), 'random'))
     lines, metas = [], []
     for s, sname in cases:
@@ -189,7 +189,7 @@ def classes_and_prosody(chk, cc):
     for l in range(1, chk.n(4, 5) + 1):
         for p in itertools.product([1, 3, 5, 7, 8, 9], repeat=l):
             profs.append(list(p))
-    for _ in range(chk.n(9000, 100000)):
+    for _ in range(chk.n(9000, 400000)):
         profs.append([rng.choice([1, 2, 3, 4, 5, 6, 7, 7, 8, 9]) for _ in range(rng.randrange(1, 10))])
     outs = drv.ask_many(['pro|' + ' '.join(map(str, p)) for p in profs])
     for p, o in zip(profs, outs):
@@ -213,7 +213,7 @@ def classes_and_prosody(chk, cc):
                 fails.append(('prosodic_weights(%r) has %d elements' % (real, len(w)),))
     # token-level: classes, sonority, prosody, weights, class2tokens
     lines, metas = [], []
-    for _ in range(chk.n(4500, 40000)):
+    for _ in range(chk.n(4500, 160000)):
         from props.c14 import gen_string as gs
         s = gs(rng, cc, 8)
         if not [c for c in s if c not in cc['breaks']]:
